@@ -666,6 +666,31 @@ impl<'a, H: HK> Runner<'a, H> {
                         ));
                     }
                     overlays.push(o);
+                    if self.obs.proofs > 0 {
+                        // proofs through a session layered on the uncommitted chain
+                        let refs: Vec<&Overlay> = overlays.iter().rev().collect();
+                        let q = proof_queries(&view, self.hist.salt ^ 0x0511 ^ i as u64, self.obs.proofs / 2 + 2);
+                        let mut info = std::mem::take(&mut self.info);
+                        let r = check_proofs(self.db.as_ref().unwrap(), &refs, &view, &q, self.obs.proof_shape, i, &mut info);
+                        info.bump("proof_sessions_on_overlay");
+                        self.info = info;
+                        r?;
+                    }
+                    if self.obs.values {
+                        // reads through a session layered on the uncommitted chain
+                        let refs: Vec<&Overlay> = overlays.iter().rev().collect();
+                        let sess = self.db().begin(&refs, false).map_err(|f| viol(i, f.sig()))?;
+                        let mut keys: Vec<Key> = part.iter().map(|(k, _)| *k).take(24).collect();
+                        keys.extend(absent_probes(&view, self.hist.salt ^ 77 ^ i as u64, 6));
+                        for k in keys {
+                            let want = view.get(&k).map(|v| v.bytes.as_ref().clone());
+                            let got = crate::driver::guard("Session::read", || sess.read(k))
+                                .map_err(|f| viol(i, f.sig()))?;
+                            if got != want {
+                                return Err(viol(i, format!("Session::read({}) on overlay chain disagrees with model", hx8(&k))));
+                            }
+                        }
+                    }
                 }
                 self.info.bump("overlay_chains");
                 self.info.max("max_overlay_chain", overlays.len() as u64);
